@@ -170,9 +170,15 @@ def oracle_zoo(ctx, inputs):
         raise _Timeout()
     old = signal.signal(signal.SIGALRM, on_alarm)
     try:
-        for name, mk in zoo():
+        quiet = lambda *a: None
+        for name, mk in [(n_, m_, ) for (n_, m_) in zoo()] + [(n_ + "+debug", m_) for (n_, m_) in zoo()]:
             try:
                 e = mk()
+                if name.endswith("+debug"):
+                    # the debug / fail-action branch of _parseNoCache (a copy: several zoo members are module-level objects)
+                    e = e.copy()
+                    e.set_debug_actions(quiet, quiet, quiet)
+                    e.set_fail_action(quiet)
             except Exception as ex:
                 ctx.stat("zoo_unbuildable")
                 continue
